@@ -108,6 +108,12 @@ func (zset *ZSet) Range(start int, stop int, opt ZRangeOption) []*ZSetMember {
 	if stop < 0 {
 		stop = len(zset.members) + stop
 	}
+	if start < 0 {
+		start = 0
+	}
+	if len(zset.members)-1 < stop {
+		stop = len(zset.members) - 1
+	}
 
 	mems := []*ZSetMember{}
 	for n := start; n <= stop; n++ {
